@@ -273,6 +273,9 @@ def keyid_mutations(blob: bytes) -> t.Iterator[t.Tuple[t.List[t.Any], bytes]]:
                 m = 256**kl
                 yield ["kid", "ki.ec-rewrite", kl], with_ki(gkdi.pack_ec_key(curve, kl, x0 % m, y0 % m))
                 yield ["kid", "ki.ec-rewrite-zero", kl], with_ki(gkdi.pack_ec_key(curve, kl, 0, 0))
+                # coordinates that really fill the announced length (top octet non-zero): larger than any field element when kl > curve size
+                yield ["kid", "ki.ec-rewrite-full", kl], with_ki(gkdi.pack_ec_key(curve, kl, m - 1, m - 1))
+                yield ["kid", "ki.ec-rewrite-top", kl], with_ki(gkdi.pack_ec_key(curve, kl, (x0 % (m // 256)) + (m // 256) * 0x5A, (y0 % (m // 256)) + (m // 256) * 0x01))
             for other in ("P256", "P384", "P521"):
                 if other != curve:
                     yield ["kid", "ki.ec-other-curve", other], with_ki(gkdi.pack_ec_key(other, kl0, x0, y0))
